@@ -20,7 +20,7 @@ use sciparse::{
     packet::view::ScionRawPacketView,
     path::{
         ScionPath,
-        metadata::{PathMetadata, path_interface::PathInterface},
+        metadata::{InterfaceMetadata, PathMetadata, epic::EpicAuths, path_interface::PathInterface},
     },
 };
 use serde_json::{Value, json};
@@ -836,6 +836,138 @@ pub fn model_cell(cell: &Value) -> (Obs, Vec<Value>) {
     }
     let mut mis = Vec::new();
     for (name, spec, real) in [("mvalid", &cell["mvalid"], &obs["mvalid"]), ("mrev", &cell["mrev"], &obs["mrev"]), ("mexp", &cell["mexp"], &obs["mexp"])] {
+        if spec != real {
+            mis.push(json!({"field": name, "spec": spec, "real": real}));
+        }
+    }
+    (Obs { pv: pvs, obs }, mis)
+}
+
+// ------------------------------------------------------------------------------------------------
+// ScionPath level (MC_ScionPath.tla)
+// ------------------------------------------------------------------------------------------------
+fn sp_ia(x: u64) -> IsdAsn {
+    IsdAsn(0x0001_ff00_0000_0100 + x)
+}
+fn sp_ia_back(i: IsdAsn) -> i64 {
+    i.0 as i64 - 0x0001_ff00_0000_0100
+}
+fn sp_project(p: &ScionPath) -> Value {
+    let m = p.metadata();
+    let dp = HdrC::parse_or_meta(p.dp_path().as_slice());
+    json!({
+        "src": sp_ia_back(p.src_ia()), "dst": sp_ia_back(p.dst_ia()),
+        "nh": p.next_hop().is_some(),
+        "cpfp": p.cp_fingerprint().is_some(),
+        "meta": {
+            "present": m.is_some(),
+            "hasifs": m.map(|m| m.interfaces.is_some()).unwrap_or(false),
+            "ifs": m.and_then(|m| m.interfaces.as_ref()).map(|v| v.iter().map(|i| i.interface.id as i64).collect::<Vec<_>>()).unwrap_or_default(),
+            "hasnotes": m.map(|m| m.notes.is_some()).unwrap_or(false),
+            "notes": m.and_then(|m| m.notes.as_ref()).map(|v| v.iter().map(|s| s.parse::<i64>().unwrap_or(-1)).collect::<Vec<_>>()).unwrap_or_default(),
+            "epic": m.map(|m| m.epic_auth.is_some()).unwrap_or(false),
+        },
+        "dp": small_project(&dp),
+    })
+}
+
+/// One cell of MC_ScionPath: build the ScionPath from its parts, reverse it once and twice.
+pub fn scionpath_cell(cell: &Value) -> (Obs, Vec<Value>) {
+    let b = &cell["before"];
+    let mut pvs = Vec::new();
+    let dpj = &b["dp"];
+    let sl = jarr_u(&dpj["sl"]);
+    let cd = jarr_b(&dpj["cd"]);
+    let tot: u64 = sl.iter().sum();
+    let h = HdrC {
+        ci: dpj["ci"].as_u64().unwrap_or(0) as u8,
+        ch: dpj["ch"].as_u64().unwrap_or(0) as u8,
+        rsv: 0,
+        sl: [sl[0] as u8, sl[1] as u8, sl[2] as u8],
+        inf: (0..cd.len()).map(|j| small_inf(j as u32 + 1, cd[j], 1000 * (j as u32 + 1), &[])).collect(),
+        hop: (0..tot as usize).map(|k| small_hop(k as u32 + 1, 10 + k as u8 + 1, false, false)).collect(),
+    };
+    let bytes = h.bytes();
+    let wf = well_formed(&h);
+    let mj = &b["meta"];
+    let meta = if mj["present"].as_bool().unwrap_or(false) {
+        Some(PathMetadata {
+            expiration: 1_900_000_000,
+            mtu: 1400,
+            interfaces: if mj["hasifs"].as_bool().unwrap_or(false) {
+                Some(jarr_u(&mj["ifs"]).iter().map(|i| InterfaceMetadata::new_without_metadata(PathInterface { isd_asn: sp_ia(*i), id: *i as u16 })).collect())
+            } else {
+                None
+            },
+            epic_auth: if mj["epic"].as_bool().unwrap_or(false) { Some(EpicAuths::new(vec![1, 2, 3], vec![4, 5, 6])) } else { None },
+            notes: if mj["hasnotes"].as_bool().unwrap_or(false) { Some(jarr_u(&mj["notes"]).iter().map(|n| n.to_string()).collect()) } else { None },
+        })
+    } else {
+        None
+    };
+    let nh: Option<std::net::SocketAddr> = if b["nh"].as_bool().unwrap_or(false) { Some("10.0.0.1:30041".parse().unwrap()) } else { None };
+    let Ok((v, _)) = StandardPathView::try_from_slice(&bytes) else {
+        return (Obs { pv: pvs, obs: json!({"accepted": false}) }, vec![json!({"field": "constructor", "spec": "accepts", "real": "rejects"})]);
+    };
+    let mk = |src: IsdAsn, dst: IsdAsn, dp: ScionDpPathView, m: Option<PathMetadata>, nh| ScionPath::new(src, dst, dp, m, nh);
+    let sp0 = mk(sp_ia(b["src"].as_u64().unwrap_or(1)), sp_ia(b["dst"].as_u64().unwrap_or(2)), ScionDpPathView::Standard(v.to_boxed()), meta, nh);
+    let mut obs = json!({"before": sp_project(&sp0), "wf": wf});
+    let mut sp1 = sp0.clone();
+    match catch(|| sp1.try_reverse().is_ok()) {
+        Err(msg) => pvs.push(pv("Panic:ScionPath.try_reverse:cell", msg)),
+        Ok(ok1) => {
+            if !ok1 && sp1 != sp0 {
+                pvs.push(pv("ErrNotAtomic:ScionPath.try_reverse:cell", format!("Err but the path changed ({})", hex(&bytes[..4]))));
+            }
+            obs["rev"] = json!({"ok": ok1, "after": sp_project(&sp1), "fp_changed": sp1.fingerprint() != sp0.fingerprint(), "cpfp_changed": sp1.cp_fingerprint() != sp0.cp_fingerprint()});
+            if ok1 && wf {
+                // the cached values of the reversed path are those of a path built from the reversed parts
+                let fresh = mk(sp1.src_ia(), sp1.dst_ia(), sp1.dp_path().clone(), sp1.metadata().cloned(), sp1.next_hop());
+                if fresh != sp1 {
+                    pvs.push(pv(
+                        "Disagree:ScionPath.try_reverse:vs-fresh",
+                        format!("reversed ScionPath differs from one built from its own parts (fingerprint {} cp_fingerprint {} expiration {})", fresh.fingerprint() == sp1.fingerprint(), fresh.cp_fingerprint() == sp1.cp_fingerprint(), fresh.expiration() == sp1.expiration()),
+                    ));
+                }
+                if sp1.next_hop().is_some() || sp1.metadata().map(|m| m.epic_auth.is_some()).unwrap_or(false) {
+                    // documented: next hop and EPIC authenticators do not survive; not part of the property
+                }
+            }
+            let mut sp2 = sp1.clone();
+            match catch(|| sp2.try_reverse().is_ok()) {
+                Err(msg) => pvs.push(pv("Panic:ScionPath.try_reverse:cell", msg)),
+                Ok(ok2) => {
+                    obs["twice"] = json!({"ok": ok2, "fp_same": sp2.fingerprint() == sp0.fingerprint(), "cp_same_dummy": false});
+                    obs["twice"] = json!({"ok": ok2, "fp_same": sp2.fingerprint() == sp0.fingerprint(), "cpfp_same": sp2.cp_fingerprint() == sp0.cp_fingerprint()});
+                    if wf && ok1 {
+                        if !ok2 {
+                            pvs.push(pv("NotInvolution:ScionPath.try_reverse", "the reversed path cannot be reversed back"));
+                        } else {
+                            if sp2.fingerprint() != sp0.fingerprint() || sp2.cp_fingerprint() != sp0.cp_fingerprint() {
+                                pvs.push(pv("FingerprintUnstable:ScionPath.try_reverse", "a fingerprint differs after reversing twice"));
+                            }
+                            // everything except what is documented as lost (next hop, EPIC authenticators)
+                            let same = sp2.src_ia() == sp0.src_ia()
+                                && sp2.dst_ia() == sp0.dst_ia()
+                                && sp2.dp_path() == sp0.dp_path()
+                                && sp2.expiration() == sp0.expiration()
+                                && sp2.metadata().map(|m| (&m.interfaces, &m.notes, m.mtu, m.expiration)) == sp0.metadata().map(|m| (&m.interfaces, &m.notes, m.mtu, m.expiration));
+                            if !same {
+                                pvs.push(pv("NotInvolution:ScionPath.try_reverse", "reversing twice does not give back end points / data-plane path / metadata lists"));
+                            }
+                        }
+                    }
+                }
+            }
+        }
+    }
+    let mut mis = Vec::new();
+    for (name, spec, real) in [
+        ("before", &cell["before"], &obs["before"]),
+        ("wf", &cell["wf"], &obs["wf"]),
+        ("rev", &cell["rev"], &obs["rev"]),
+        ("twice", &cell["twice"], &obs["twice"]),
+    ] {
         if spec != real {
             mis.push(json!({"field": name, "spec": spec, "real": real}));
         }
